@@ -2,9 +2,168 @@
 C15, property theorems about the TRANSLATED sender-side handshake fragmentation
 (`Src.dtlcp.tx.Conn.writeHandshakeRecord`; see DESIGN.md 12.4).  Same namespace as Props/C15.lean;
 listed in checks/C15.json under extra_props_files.
+
+`Src.dtlcp.tx.Conn.writeHandshakeRecord c msg transcript` is regenerated from dtlcp/conn.go on every run, over
+the view described in `Gotlcp.Tie.TxFragment`: `c.sent` is the list of payloads handed to the record layer,
+`c.writeErrAt` the call of `writeRecordLocked` that fails (negative: none).  `Except.ok` = the Go function
+returns normally (no index / slice panic, the translated loop bound is never exhausted); the result is
+`(c', transcript', n, err)`.
 -/
 import Gotlcp.Generated.Src
+import Gotlcp.Tie.TxFragment
+import Gotlcp.Props.C15
+
+set_option linter.unusedSimpArgs false
+set_option linter.unusedVariables false
 
 namespace Gotlcp.Props.C15
+open Gotlcp.Model.DtlcpTx
+open Gotlcp.Src.dtlcp.tx
+open Gotlcp.Tie.TxFragment (baseConn maxPayload txPlan okWrites sumLen)
+
+/-- **No panic.** For every view of the connection (any PMTU, any cipher sizes, anything sent before, any
+failing write), every message of at most `2^32 − 16384` bytes (whether or not `marshal()` fails) and every
+transcript, the translated `writeHandshakeRecord` returns normally. -/
+theorem C15_src_tx_never_panics (c : Conn) (msg : goMsg) (tr : goTranscript)
+    (hlen : msg.data.length ≤ 2 ^ 32 - 16384) :
+    ∃ r, Conn.writeHandshakeRecord c msg tr = .ok r :=
+  ⟨_, Tie.TxFragment.src_eq c msg tr hlen⟩
+
+/-- … in particular under the bound of the 24-bit length fields, `len(data) < 2^24 + 12` -/
+theorem C15_src_tx_never_panics_u24 (c : Conn) (msg : goMsg) (tr : goTranscript)
+    (hlen : msg.data.length < 2 ^ 24 + 12) :
+    ∃ r, Conn.writeHandshakeRecord c msg tr = .ok r :=
+  C15_src_tx_never_panics c msg tr (by omega)
+
+/-- **The length bound is real** (`uint24` is `uint32` in this package): on a view with maximum payload 16384
+whose writes never fail, a message of `2^32 + 11` bytes (a body of `2^32 − 1` bytes) makes
+`offset + uint24(maxFragBody)` wrap around after 262336 fragments, and `body[offset:fragEnd]` panics
+(`Except.error`).  Handshake messages are bounded by `2^24`; no peer can cause this. -/
+theorem C15_src_tx_bound_is_real (c : Conn) (msg : goMsg) (tr : goTranscript) (hf : msg.fails = false)
+    (hmp : Conn.maxPayloadSizeForWrite c 22#8 = .ok 16384) (hw : c.writeErrAt < 0)
+    (hlen : msg.data.length = 2 ^ 32 + 11) :
+    Conn.writeHandshakeRecord c msg tr = .error "slice bounds out of range" := by
+  rw [Tie.TxFragment.src_maxPayload] at hmp
+  injection hmp with hmp
+  exact Tie.TxFragment.src_wraps_beyond_bound c msg tr hf hmp hw hlen
+
+/-- the maximum payload of the tx view is what the translated `maxPayloadSizeForWrite` of the base group
+(`C15_src_max_payload_range`, `C15_src_max_payload_is_model`, `C15_src_app_fits`) returns on the same view -/
+theorem C15_src_tx_max_payload_is_base (c : Conn) (typ : BitVec 8) :
+    Conn.maxPayloadSizeForWrite c typ = Src.dtlcp.Conn.maxPayloadSizeForWrite (baseConn c) typ :=
+  Tie.TxFragment.maxPayload_base c typ
+
+/-- **Handshake records respect the maximum payload.** Whatever `writeHandshakeRecord` hands to the record
+layer — the records of `c'.sent` that were not in `c.sent` — is at most `maxPayloadSizeForWrite(handshake)` bytes
+long (so `writeRecordLocked` below emits exactly one record for each of them), and `c.sent` itself is kept. -/
+theorem C15_src_tx_records_fit (c : Conn) (msg : goMsg) (tr : goTranscript)
+    (hlen : msg.data.length ≤ 2 ^ 32 - 16384)
+    (c' : Conn) (tr' : goTranscript) (n : Int) (err : Option Go.Error)
+    (h : Conn.writeHandshakeRecord c msg tr = .ok (c', tr', n, err)) :
+    ∃ mp new, Conn.maxPayloadSizeForWrite c 22#8 = .ok mp ∧ 1 ≤ mp ∧ mp ≤ (Facts.dtlcp.maxPlaintext : Int) ∧
+      c'.sent = c.sent ++ new ∧ ∀ r ∈ new, (r.length : Int) ≤ mp := by
+  have hr := Tie.TxFragment.maxPayload_range c
+  have e : ((Facts.dtlcp.maxPlaintext : Nat) : Int) = 16384 := by decide
+  refine ⟨maxPayload c, ?_⟩
+  by_cases hf : msg.fails = true
+  · rw [Tie.TxFragment.src_marshal_fails c msg tr hf] at h
+    injection h with h
+    have hc : c = c' := congrArg Prod.fst h
+    subst hc
+    exact ⟨[], Tie.TxFragment.src_maxPayload c _, hr.1, by rw [e]; exact hr.2, by simp, by simp⟩
+  have hf' : msg.fails = false := by simpa using hf
+  cases hp : txPlan (maxPayload c) msg.data with
+  | none =>
+    rw [Tie.TxFragment.src_refuses c msg tr hlen hf' hp] at h
+    injection h with h
+    have hc : c = c' := congrArg Prod.fst h
+    subst hc
+    exact ⟨[], Tie.TxFragment.src_maxPayload c _, hr.1, by rw [e]; exact hr.2, by simp, by simp⟩
+  | some l =>
+    rw [Tie.TxFragment.src_sends c msg tr hlen hf' l hp] at h
+    injection h with h
+    have hc := congrArg Prod.fst h
+    simp only at hc
+    subst hc
+    refine ⟨l.take (okWrites c l.length), Tie.TxFragment.src_maxPayload c _, hr.1, by rw [e]; exact hr.2, rfl, ?_⟩
+    intro r hr'
+    exact Tie.TxFragment.txPlan_fits _ _ l hp r (List.mem_of_mem_take hr')
+
+open Gotlcp.Tie.RecordSize.Dtlcp in
+/-- **… hence the path MTU**: on a view that is unprotected (the handshake flights of epoch 0) or protected with
+this tree's SM4-GCM or SM4-CBC-SM3 sizes, with a PMTU that leaves room for one byte, every record
+`writeHandshakeRecord` hands down becomes a record of at most the path MTU in force
+(`C15_app_fits_plain`, `C15_app_fits` through `C15_src_max_payload_is_model`).  (How records are packed into
+datagrams is `flush`'s business: finding K3, `C15_flight_is_one_datagram`.) -/
+theorem C15_src_tx_records_fit_pmtu (c : Conn) (msg : goMsg) (tr : goTranscript)
+    (hlen : msg.data.length ≤ 2 ^ 32 - 16384)
+    (ciph : Cipher) (hc : ciph = .none ∨ ciph = gcmHere ∨ ciph = cbcHere) (hm : Matches (baseConn c).out ciph)
+    (hlo : -(2 : Int) ^ 63 ≤ c.config.PMTU) (hhi : c.config.PMTU < (2 : Int) ^ 63)
+    (hw : 1 ≤ rawBudget here c.config.PMTU ciph)
+    (c' : Conn) (tr' : goTranscript) (n : Int) (err : Option Go.Error)
+    (h : Conn.writeHandshakeRecord c msg tr = .ok (c', tr', n, err)) :
+    ∃ new, c'.sent = c.sent ++ new ∧
+      ∀ r ∈ new, (recordLen here ciph r.length : Int) ≤ effPmtu c.config.PMTU := by
+  obtain ⟨mp, new, hmp, _, _, hs, hfit⟩ := C15_src_tx_records_fit c msg tr hlen c' tr' n err h
+  refine ⟨new, hs, ?_⟩
+  intro r hr
+  have hmodel := C15_src_max_payload_is_model (baseConn c) 22#8 ciph hm hlo hhi
+  rw [← C15_src_tx_max_payload_is_base, hmp] at hmodel
+  injection hmodel with hmodel
+  have hle : r.length ≤ maxPayloadSizeForWrite here c.config.PMTU ciph := by
+    have := hfit r hr
+    rw [hmodel] at this
+    exact Int.ofNat_le.mp this
+  rcases hc with rfl | rfl | rfl
+  · exact C15_app_fits_plain c.config.PMTU r.length hw hle
+  · exact (C15_app_fits c.config.PMTU r.length).1 hw hle
+  · exact (C15_app_fits c.config.PMTU r.length).2 hw hle
+
+/-- **A failing write.** When the `k`-th of the planned records (`l`, see `C17_src_tx_*` for its closed form) is
+the one whose `writeRecordLocked` fails: the error is returned, exactly the `k` records before it were handed
+down and nothing after it, the returned count is the sum of their lengths; the transcript was written before. -/
+theorem C15_src_tx_failing_write (c : Conn) (msg : goMsg) (tr : goTranscript)
+    (hlen : msg.data.length ≤ 2 ^ 32 - 16384) (hf : msg.fails = false)
+    (l : List (List (BitVec 8))) (hp : txPlan (maxPayload c) msg.data = some l)
+    (k : Nat) (hk : k < l.length) (he : c.writeErrAt = (c.sent.length : Int) + (k : Int)) :
+    Conn.writeHandshakeRecord c msg tr = .ok
+      ({ c with sent := c.sent ++ l.take k }, { tr with written := tr.written ++ msg.data },
+       sumLen (l.take k), some Go.Error.other) := by
+  rw [Tie.TxFragment.src_sends c msg tr hlen hf l hp]
+  have : okWrites c l.length = k := by
+    unfold okWrites
+    rw [if_pos (by omega)]
+    omega
+  rw [this, if_pos hk]
+
+/-- … and when no planned write fails, all records are handed down and no error is returned -/
+theorem C15_src_tx_no_failing_write (c : Conn) (msg : goMsg) (tr : goTranscript)
+    (hlen : msg.data.length ≤ 2 ^ 32 - 16384) (hf : msg.fails = false)
+    (l : List (List (BitVec 8))) (hp : txPlan (maxPayload c) msg.data = some l)
+    (he : c.writeErrAt < (c.sent.length : Int) ∨ (c.sent.length : Int) + (l.length : Int) ≤ c.writeErrAt) :
+    Conn.writeHandshakeRecord c msg tr = .ok
+      ({ c with sent := c.sent ++ l }, { tr with written := tr.written ++ msg.data }, sumLen l, none) := by
+  rw [Tie.TxFragment.src_sends c msg tr hlen hf l hp]
+  have : okWrites c l.length = l.length := by
+    unfold okWrites
+    rw [if_neg (by omega)]
+  rw [this, if_neg (by omega), List.take_length]
+
+/-- non-vacuity: the TRANSLATED code run by the kernel.  An unprotected view at PMTU 45 has maximum payload 32;
+a 52-byte message (40-byte body) leaves as two records of 32 bytes; with the second write failing, as one
+record, 32 bytes counted and the error returned; at PMTU 16397 the maximum payload is 16384 (the view of
+`C15_src_tx_bound_is_real` exists). -/
+example :
+    let bs (l : List Nat) : List (BitVec 8) := l.map (BitVec.ofNat 8)
+    let msg : goMsg := { data := bs ([11,0,0,40, 0,3, 0,0,0, 0,0,40] ++ List.range 40) }
+    let c0 : Conn := { config := { PMTU := 45 }, writeErrAt := -1 }
+    (Conn.maxPayloadSizeForWrite c0 22#8).toOption = some 32 ∧
+    (Conn.writeHandshakeRecord c0 msg {}).toOption.map (fun r => (r.1.sent.map List.length, r.2.2.1, r.2.2.2))
+      = some ([32, 32], 64, none) ∧
+    (Conn.writeHandshakeRecord { c0 with writeErrAt := 1 } msg {}).toOption.map
+        (fun r => (r.1.sent.map List.length, r.2.2.1, r.2.2.2))
+      = some ([32], 32, some Go.Error.other) ∧
+    (Conn.maxPayloadSizeForWrite { config := { PMTU := 16397 }, writeErrAt := -1 } 22#8).toOption = some 16384 := by
+  decide
 
 end Gotlcp.Props.C15
